@@ -1233,14 +1233,31 @@ impl Compiler {
             return self.compile_assign_to_map(target, expression, export_assignment, ctx);
         }
 
-        let local_assign_register = self.local_registers_for_assign_target(target, ctx)?;
-        let value_result_register = match local_assign_register.first() {
-            Some(local) => ResultRegister::Fixed(*local),
-            None => ResultRegister::Any,
+        // When the target is a variable that has already been assigned, then its register can only
+        // be used as the expression's result register if the expression writes its result as its
+        // last step. Otherwise the expression could overwrite the variable before reading it,
+        // e.g. in `x = y and x`, or `x = {foo: x}`.
+        let target_is_assigned = match ctx.node(target) {
+            Node::Id(id, ..) => self.frame().get_local_assigned_register(*id).is_some(),
+            _ => false,
         };
 
-        let value_result =
-            self.compile_node(expression, ctx.with_register(value_result_register))?;
+        let local_assign_register = self.local_registers_for_assign_target(target, ctx)?;
+        let value_result = match local_assign_register.first() {
+            Some(local) if target_is_assigned && !Self::result_is_written_last(expression, ctx) => {
+                let temp_result = self.compile_node(expression, ctx.with_any_register())?;
+                let temp_register = temp_result.unwrap(self)?;
+                self.push_op(Copy, &[*local, temp_register]);
+                if temp_result.is_temporary {
+                    self.pop_register()?;
+                }
+                CompileNodeOutput::with_assigned(*local)
+            }
+            Some(local) => {
+                self.compile_node(expression, ctx.with_register(ResultRegister::Fixed(*local)))?
+            }
+            None => self.compile_node(expression, ctx.with_register(ResultRegister::Any))?,
+        };
         let value_register = value_result.unwrap(self)?;
 
         let target_node = ctx.node_with_span(target);
@@ -1300,6 +1317,46 @@ impl Compiler {
         self.pop_span();
 
         Ok(result)
+    }
+
+    // Returns true if the expression only writes to its result register as its last step,
+    // after all of its inputs have been read.
+    fn result_is_written_last(expression: AstIndex, ctx: CompileNodeContext) -> bool {
+        let is_comparison = |node: &Node| {
+            matches!(
+                node,
+                Node::BinaryOp {
+                    op: AstBinaryOp::Less
+                        | AstBinaryOp::LessOrEqual
+                        | AstBinaryOp::Greater
+                        | AstBinaryOp::GreaterOrEqual
+                        | AstBinaryOp::Equal
+                        | AstBinaryOp::NotEqual,
+                    ..
+                }
+            )
+        };
+
+        match ctx.node(expression) {
+            Node::Null
+            | Node::BoolTrue
+            | Node::BoolFalse
+            | Node::SmallInt(_)
+            | Node::Int(_)
+            | Node::Float(_)
+            | Node::Str(_)
+            | Node::Id(..)
+            | Node::Chain(_)
+            | Node::UnaryOp { .. } => true,
+            Node::Nested(nested) => Self::result_is_written_last(*nested, ctx),
+            Node::BinaryOp { op, lhs, rhs } => match op {
+                // Logical operators write their lhs to the result register before evaluating the rhs
+                AstBinaryOp::And | AstBinaryOp::Or => false,
+                // Chained comparisons write intermediate results to the result register
+                _ => !(is_comparison(ctx.node(*lhs)) || is_comparison(ctx.node(*rhs))),
+            },
+            _ => false,
+        }
     }
 
     fn compile_assign_to_map(
